@@ -874,7 +874,41 @@ def _case_id(case: dict) -> str:
     return f"{case['placement']}/{case['kind']}/{case['op']}/v{case['vi']}"
 
 
-def export_case(case: dict, flag: bool, spec: str, glob0: bool, seed: int = 0) -> dict:
+SPEC_FORMS = ["sds", "tuple", "nparray", "duck", "namespace", "jnparray"]
+
+
+class _DuckSpec:
+    """Minimal array-like input spec: only .shape and .dtype."""
+
+    def __init__(self, shape, dtype):
+        self.shape = tuple(shape)
+        self.dtype = np.dtype(dtype)
+
+
+def make_spec(form: str, spec: str):
+    """The input specification for a (3,4) input of dtype `spec`, spelled in one of the forms the
+    public `to_onnx` accepts. A shape tuple carries no dtype (the flag decides)."""
+    import types
+    import jax
+    import jax.numpy as jnp
+    dt = np.dtype(spec)
+    if form == "sds":
+        return jax.ShapeDtypeStruct(X_SHAPE, dt)
+    if form == "tuple":
+        return tuple(X_SHAPE)
+    if form == "nparray":
+        return np.zeros(X_SHAPE, dtype=dt)
+    if form == "duck":
+        return _DuckSpec(X_SHAPE, dt)
+    if form == "namespace":
+        return types.SimpleNamespace(shape=X_SHAPE, dtype=dt.type)
+    if form == "jnparray":
+        with jax.enable_x64(spec == "float64"):
+            return jnp.zeros(X_SHAPE, dtype=dt)
+    raise ValueError(form)
+
+
+def export_case(case: dict, flag: bool, spec: str, glob0: bool, seed: int = 0, form: str = "sds") -> dict:
     """Build the program under x64 = flag, evaluate it in JAX, export it through the PUBLIC
     `to_onnx` with the process-wide x64 value preset to `glob0`, and collect every observable."""
     import jax
@@ -882,7 +916,10 @@ def export_case(case: dict, flag: bool, spec: str, glob0: bool, seed: int = 0) -
     import c09_programs as P
     from jax2onnx import to_onnx
 
-    res: dict[str, Any] = {"case": case, "flag": flag, "spec": spec, "glob0": glob0}
+    if form == "tuple":
+        spec = "float64" if flag else "float32"      # what a dtype-less spec means under the flag
+    res: dict[str, Any] = {"case": case, "flag": flag, "spec": spec, "glob0": glob0, "form": form}
+    spec_obj = make_spec(form, spec)
     xs = _inputs(seed)
     in_dt = np.dtype(spec) if flag else np.dtype(np.float32)
     jax.config.update("jax_enable_x64", False)
@@ -905,7 +942,7 @@ def export_case(case: dict, flag: bool, spec: str, glob0: bool, seed: int = 0) -
         try:
             with jax.enable_x64(flag):          # constants of the program may be built lazily; the
                 pass                            # export itself runs WITHOUT an override
-            model = to_onnx(f, [jax.ShapeDtypeStruct(X_SHAPE, np.dtype(spec))], enable_double_precision=flag)
+            model = to_onnx(f, [spec_obj], enable_double_precision=flag)
             res["status"] = "exported"
         except Exception as e:
             model = None
@@ -1105,8 +1142,23 @@ def gen_cases(rng: common.Rng, thorough: bool) -> list[dict]:
              {"placement": "fori", "kind": "pyint", "op": "linspace", "vi": 3},
              {"placement": "top", "kind": "arr64", "op": "arctan2", "vi": 2},
              {"placement": "top", "kind": "pyfloat", "op": "hamming", "vi": 2}]
+    # pattern-directed: one @onnx_function at two call sites, static float keyword differing below
+    # float32 resolution (free function and class; every pair; first-order ops)
+    for i, pair_op in enumerate(P.KW_OPS):
+        cases.append({"placement": "fn_kw2" if i % 2 == 0 else "fn_cls_kw2", "kind": "pyfloat", "op": pair_op, "vi": i})
+        cases.append({"placement": "fn_cls_kw2" if i % 2 == 0 else "fn_kw2", "kind": "pyfloat", "op": pair_op,
+                      "vi": i + 1})
+    # pattern-directed: every FORM of the input spec x ambient x64, for programs whose literals are
+    # not float32 numbers, flag on / float64 (the probe) and flag off
+    for form in SPEC_FORMS[1:]:
+        for glob0 in (False, True):
+            for pl, op in (("top", "tanh"), ("fori", "mul"), ("fn", "div")):
+                cases.append({"placement": pl, "kind": "pyfloat", "op": op, "vi": rng.randint(0, 3), "form": form,
+                              "glob0": glob0, "only": [(True, "float64")] + ([(False, "float64")] if glob0 else [])})
+        cases.append({"placement": "top", "kind": "pyfloat", "op": "mul", "vi": 1, "form": form, "glob0": False,
+                      "only": [(True, "float32"), (False, "float32")]})
     reps = 3 if thorough else 1
-    placements = [p for p in P.PLACEMENTS if p != "fn_in_fori"]
+    placements = [p for p in P.PLACEMENTS if p not in ("fn_in_fori", "fn_kw2", "fn_cls_kw2")]
     safe_ops = [o for o in P.OPS if o != "arctan2"]      # arctan2: known finding F-C09-atan2-f32
     for _ in range(reps):
         for pl in placements:                               # every placement x every constant kind
@@ -1121,9 +1173,14 @@ def gen_cases(rng: common.Rng, thorough: bool) -> list[dict]:
         cases.append({"placement": rng.choice(placements), "kind": rng.choice(P.CONST_KINDS),
                       "op": rng.choice(P.OPS), "vi": rng.randint(0, 3)})
     cases.append({"placement": "fn_in_fori", "kind": "pyfloat", "op": "mul", "vi": 0})   # fails to export today
+    for _ in range(24 if thorough else 6):
+        cases.append({"placement": rng.choice(["fn_kw2", "fn_cls_kw2"]), "kind": "pyfloat", "op": rng.choice(P.KW_OPS),
+                      "vi": rng.randint(0, 3)})
     seen, out = set(), []
     for c in cases:
-        k = _case_id(c)
+        if "form" not in c and rng.chance(0.3):
+            c["form"] = rng.choice(SPEC_FORMS[1:])
+        k = _case_id(c) + "|" + c.get("form", "sds") + "|" + str(c.get("glob0"))
         if k not in seen:
             seen.add(k)
             out.append(c)
@@ -1148,18 +1205,25 @@ def check_programs(chk: Check, rng: common.Rng, thorough: bool, calib: dict) -> 
              "narrow_in_all_f64": 0, "unloadable_out_of_scope": [], "single_numeric_mismatch": [],
              "probe_inconclusive": [], "ort_kernel_artifacts": [], "n_ort_kernel_artifacts": 0}
     dist: dict[str, int] = {}
+    forms_dist: dict[str, int] = {}
     scan_lines, scan_meta = [], []
     found = 0
     for ci, case in enumerate(cases):
         variants = [(False, rng.choice(["float32", "float64"])), (True, "float64")]
         if rng.chance(0.25):
             variants.append((True, "float32"))
+        if "only" in case:
+            variants = [tuple(v) for v in case["only"]]
+        form = case.get("form", "sds")
         for flag, spec in variants:
-            glob0 = rng.chance(0.5)
-            res = export_case(case, flag, spec, glob0, seed=chk.seed)
-            cid = _case_id(case)
+            glob0 = case["glob0"] if "glob0" in case else rng.chance(0.5)
+            res = export_case(case, flag, spec, glob0, seed=chk.seed, form=form)
+            spec = res["spec"]
+            cid = _case_id(case) + ("" if form == "sds" else f"[{form}]")
             key_base = {"placement": case["placement"], "const": case["kind"], "op": case["op"],
-                        "flag": flag, "spec": spec}
+                        "flag": flag, "spec": spec, "form": form}
+            forms_dist[f"{form}|{'on' if flag else 'off'}|x64={int(glob0)}"] = \
+                forms_dist.get(f"{form}|{'on' if flag else 'off'}|x64={int(glob0)}", 0) + 1
             dist[f"{case['placement']}|{'on' if flag else 'off'}"] = dist.get(f"{case['placement']}|{'on' if flag else 'off'}", 0) + 1
             if res["status"] == "jax_failed":
                 stats["jax_failed"] += 1
@@ -1171,7 +1235,8 @@ def check_programs(chk: Check, rng: common.Rng, thorough: bool, calib: dict) -> 
                 chk.finding({"kind": "x64_not_restored", "override": False, **key_base, "glob0": glob0,
                              "status": res["status"]},
                             f"jax_enable_x64 {res['x64_before']} -> {res['x64_after']} after to_onnx of {cid}",
-                            {"case": case, "flag": flag, "spec": spec, "glob0": glob0, "observed": slim(res)})
+                            {"case": case, "flag": flag, "spec": spec, "glob0": glob0, "form": form,
+                             "observed": slim(res)})
             if res["status"] == "export_failed":
                 stats["export_failed"] += 1
                 chk.count({"case": cid, "flag": flag, "spec": spec, "status": "export_failed",
@@ -1182,7 +1247,13 @@ def check_programs(chk: Check, rng: common.Rng, thorough: bool, calib: dict) -> 
             nontrivial = len(res["codes"]) > 1 or case["placement"] != "top"
             chk.count({"case": cid, "flag": flag, "spec": spec, "codes": res["codes"], "all_f64": res["all_f64"],
                        "err": res["err"]}, nontrivial=nontrivial, sample_every=40)
-            replay = {"case": case, "flag": flag, "spec": spec, "glob0": glob0, "observed": slim(res)}
+            replay = {"case": case, "flag": flag, "spec": spec, "glob0": glob0, "form": form, "observed": slim(res)}
+            want_in = 11 if flag else 1
+            if res["in_codes"] and res["in_codes"][0] != want_in:
+                found += 1
+                chk.finding({"kind": "input_type", **key_base, "declared": res["in_codes"][0]},
+                            f"{cid}: model input declared as element type {res['in_codes'][0]}, expected {want_in} for a "
+                            f"{spec} {form} spec with enable_double_precision={flag}", replay)
             if not flag:
                 stats["flag_off_scanned"] += 1
                 scan_lines.append(scan_request(res["tree"], "double"))
@@ -1257,6 +1328,7 @@ def check_programs(chk: Check, rng: common.Rng, thorough: bool, calib: dict) -> 
     stats["programs"] = len(cases)
     stats["scanner_requests"] = len(scan_lines)
     stats["distribution_placement_flag"] = dist
+    stats["distribution_specform_flag_ambientx64"] = forms_dist
     stats["findings"] = found
     return stats
 
@@ -1532,7 +1604,8 @@ def replay(path: str) -> int:
         print("row still violates:", bool(now))
         return 1 if now else 0
     if "case" in rep:
-        res = export_case(rep["case"], rep["flag"], rep["spec"], rep.get("glob0", False), seed=rep.get("seed", 0))
+        res = export_case(rep["case"], rep["flag"], rep["spec"], rep.get("glob0", False), seed=rep.get("seed", 0),
+                          form=rep.get("form", "sds"))
         if res["status"] == "exported":
             analyse_export(res)
         print(json.dumps(slim(res), indent=1, default=str)[:3000])
